@@ -541,6 +541,16 @@ func GenC04(r *hx.Rand, thorough bool) History {
 			h.Ops = append(h.Ops, downActivity(r, ps)...)
 			h.Ops = append(h.Ops, Op{K: "resetmeta"}, Op{K: "up"})
 		case x < 94: // run-time reset (auto-recover)
+			if r.Chance(50) {
+				// the replica lags the local files (DB.Sync without Replica.Sync) and litestream restarts the WAL before the reset
+				for i, n := 0, 1+r.Intn(3); i < n; i++ {
+					h.Ops = append(h.Ops, genAppOp(r, ps), Op{K: "sync"})
+				}
+				h.Ops = append(h.Ops, Op{K: "lckpt", S: []string{"PASSIVE", "TRUNCATE", "RESTART"}[r.Intn(3)]})
+				if r.Chance(50) {
+					h.Ops = append(h.Ops, genAppOp(r, ps))
+				}
+			}
 			h.Ops = append(h.Ops, Op{K: "autorecover"})
 			if r.Chance(50) {
 				// a transient replica fault during the first sync after the reset, then it goes away
